@@ -57,7 +57,8 @@ fn cli_factors(out: &str) -> String {
 /// process level: one prime per configuration; `reference` is the in-process answer for the same input
 fn do_cli(ctx: &mut Ctx, fld: &Field, p: &BigInt, reference: &str) {
     let cfg = format!(
-        "to_find = ['prime-decomposition']\n[input.polynomial_and_primes]\npolynomial = {}\nprimes = ['{}']\n",
+        "to_find = {}\n[input.polynomial_and_primes]\npolynomial = {}\nprimes = ['{}']\n",
+        to_find_list("prime-decomposition", &["factorization-mod-p", "discriminant"], variant_of(&[show_ints(&fld.f), p.to_string()]) / 3 + 1),
         toml_list_z(&fld.f, variant_of(&[show_ints(&fld.f), p.to_string()]) % 3),
         p
     );
